@@ -100,8 +100,15 @@ func (e *exec) Body() {
 		ds.Install()
 		pc := &vnet.FakePacketConn{Name: "bc", In: [][]byte{apHB(0, 3, 1)}}
 		vnet.ListenPacketHook = func(network, address string) (net.PacketConn, error) { return pc, nil }
+		// a second client-type endpoint (serial) failing and retrying at the same time
+		s1 := &vnet.FakeConn{Name: "ser1", In: [][]byte{apHB(0, 4, 1)}, InErr: io.EOF}
+		ss := &sx.SerialScript{Conns: []*vnet.FakeConn{{Name: "probe"}, nil, s1, nil, {Name: "ser2"}}}
+		ss.Install()
+		conns = append(conns, s1)
 		n.Endpoints = []gomavlib.EndpointConf{gomavlib.EndpointTCPClient{Address: "1.2.3.4:5600"},
-			gomavlib.EndpointUDPBroadcast{BroadcastAddress: "192.168.7.255:5600", LocalAddress: "192.168.7.1:5600"}}
+			gomavlib.EndpointUDPBroadcast{BroadcastAddress: "192.168.7.255:5600", LocalAddress: "192.168.7.1:5600"},
+			gomavlib.EndpointSerial{Device: "/dev/ttyFAKE", Baud: 57600},
+			gomavlib.EndpointUDPClient{Address: "1.2.3.5:5600"}}
 	}
 	_ = conns
 	if err := n.Initialize(); err != nil {
@@ -132,6 +139,12 @@ func (e *exec) Body() {
 			n.WriteMessageExcept(e.chans[0], &common.MessagePing{Seq: 3}) //nolint
 		}
 		n.WriteFrameAll(shared) //nolint
+		if p.Signed {
+			// a frame that arrives signed (under another key) and is forwarded to several channels
+			sig := frame.V2Signature{1, 2, 3, 4, 5, 6}
+			n.WriteFrameAll(&frame.V2Frame{IncompatibilityFlag: frame.V2FlagSigned, SequenceNumber: 3, SystemID: 79, ComponentID: 1,
+				Message: &message.MessageRaw{ID: 4, Payload: []byte{1, 2}}, SignatureLinkID: 1, SignatureTimestamp: 99, Signature: &sig}) //nolint
+		}
 		writersDone++
 	})
 	vmc.GoApp("W2", func() {
